@@ -339,6 +339,13 @@ def r6(R, repo):
   fr = repo.func(TR, 'fork_rngs')
   tr = [n for n in astu.body_walk(fr.node) if isinstance(n, ast.Try)]
   ok = len(tr) == 1 and any(astu.src(s) == 'module.scope.rngs = current_rngs' for s in tr[0].finalbody) and 'current_rngs = module.scope.rngs.copy()' in astu.src(fr.node)
+  if not ok and len(tr) == 1:
+    # what is put back must be the rngs saved before they were replaced (a copy or the dict itself: the scope's dict is rebound, not mutated)
+    back = [s.value for s in tr[0].finalbody if isinstance(s, ast.Assign) and astu.src(s.targets[0]) == 'module.scope.rngs']
+    if len(back) == 1:
+      kind, src_, _w = evid.copy_depth(fr, back[0])
+      if kind is not None and src_ is not None and astu.src(src_) == 'module.scope.rngs' and not (isinstance(back[0], ast.Attribute)):
+        ok = True
   R.judge(len(tr) == 1 and 'current_rngs' in astu.src(fr.node), ok, key_of(fr, 'rngs restored in finally'), fr, 'fork_rngs must restore the module scope\'s rngs in a finally block')
 
 
